@@ -17,8 +17,8 @@ CHECKS = {
    text="Same simulation as C14; the oracle is a stepwise model of trip-level accounting (assignment, applied-update count, last update's identifiers, marked-past = first feed after the last applied update from which the trip was missing, ignore-unassigned rule) plus selection by closed window and assignment, uniqueness and UID order, checked on every prefix and for drawn windows including boundary instants.",
    note="Trusted: the reference model; grouping key (start instant, id minus 6-char prefix) as stated by the property."),
  "C18": dict(engine="sched", category="exploration", design_ref="DESIGN.md §2.3, §4 C18",
-   technique="deterministic simulation: seeded cooperative scheduler over caller goroutines + Go race detector with scheduler edges hidden, per-call equality with solo execution",
-   text="2-6 caller tasks run ParseRealtime/ParseStatic on shared input buffers and shared option/extension objects as real goroutines of which exactly one is runnable; a seeded scheduler picks who runs at every yield point (extension interface proxy, tagged hooks in csv.NextRow and the realtime entity loops, task-level points, and the sites an AST instrumenter inserts into a scratch copy of /repo's working tree: every declared function's entry and around every synchronisation-like call). The binary is built with -race and the scheduler's own synchronisation is hidden from ThreadSanitizer, so only synchronisation performed by the library orders two tasks. Oracle: no race report; each call's result equals the same call executed alone on fresh objects; shared inputs unchanged.",
+   technique="deterministic simulation: seeded cooperative scheduler over caller goroutines + Go race detector with scheduler edges hidden, per-call equality with solo execution (in-process and, for a prefix of the batch, in fresh processes with the opposite call order)",
+   text="2-6 caller tasks run ParseRealtime/ParseStatic on shared input buffers and shared option/extension objects as real goroutines of which exactly one is runnable; a seeded scheduler picks who runs at every yield point (extension interface proxy, tagged hooks in csv.NextRow and the realtime entity loops, task-level points, and the sites an AST instrumenter inserts into a scratch copy of /repo's working tree: every declared function's entry and around every synchronisation-like call). The binary is built with -race and the scheduler's own synchronisation is hidden from ThreadSanitizer, so only synchronisation performed by the library orders two tasks. Oracle: no race report; each call's result equals the same call executed alone on fresh objects; the digest of the solo results equals the one fresh processes compute (GOMAXPROCS 1/4/16/2, half of them in the opposite order: sticky process-wide state); shared inputs unchanged.",
    note="Trusted: ThreadSanitizer, the runtime.RaceDisable/Enable bracket around park/resume. Pre-emption only at yield points (the race detector still sees every access)."),
  "C06": dict(engine="history", category="exploration", design_ref="DESIGN.md §4 C06",
    technique="deterministic simulation of call histories on long-lived option/extension objects; refinement against fresh-object reference, in-process repetition and fresh-process digests",
